@@ -310,6 +310,9 @@ func newClientSys(rec *recorder, chain []string, builtin ...bool) (system, error
 		})
 	}
 	sys := &clientSys{done: make(chan struct{})}
+	dropFirst := len(builtin) > 1 && builtin[1]
+	var dmu sync.Mutex
+	dropped := map[[2]int]int{}
 	dial := func(ctx context.Context) (net.Conn, error) {
 		a, b := net.Pipe()
 		go func() { // scripted server = the core of the client chain
@@ -321,7 +324,20 @@ func newClientSys(rec *recorder, chain []string, builtin ...bool) (system, error
 					return
 				}
 				u, m := reqTokens(&req)
-				rec.emit(u, Event{E: "core", C: -1, M: m})
+				if dropFirst {
+					// the server drops the connection after reading a request it sees for the first time and answers its retransmission:
+					// the resend on a fresh connection is the business of the innermost continuation (one core event per invocation)
+					dmu.Lock()
+					cnt := dropped[[2]int{u, m}]
+					dropped[[2]int{u, m}] = cnt + 1
+					dmu.Unlock()
+					if cnt%2 == 0 {
+						rec.emit(u, Event{E: "core", C: -1, M: m})
+						return
+					}
+				} else {
+					rec.emit(u, Event{E: "core", C: -1, M: m})
+				}
 				if err := st.Send(respMsg(fmt.Sprintf("core.m%d", m))); err != nil {
 					return
 				}
@@ -491,6 +507,8 @@ func build(rec *recorder, kind string, chain []string) (system, error) {
 		return newClientSys(rec, chain)
 	case "client-builtin":
 		return newClientSys(rec, chain, true)
+	case "client-drop":
+		return newClientSys(rec, chain, false, true)
 	case "srvmsg":
 		return newSrvSys(rec, chain, false), nil
 	case "srvitem":
@@ -526,7 +544,7 @@ type kindVariant struct {
 // every chain runs on the three real chains; chains that derive contexts additionally run on the two
 // server chains with derived contexts that are already cancelled
 func kindVariants(chain []string) []kindVariant {
-	kv := []kindVariant{{"client", false}, {"srvmsg", false}, {"srvitem", false}, {"srvmsg-late", false}, {"srvitem-late", false}, {"srvmsg-stop", false}, {"client-builtin", false}, {"srvitem-critical", false}, {"srvmsg-upgrade", false}}
+	kv := []kindVariant{{"client", false}, {"srvmsg", false}, {"srvitem", false}, {"srvmsg-late", false}, {"srvitem-late", false}, {"srvmsg-stop", false}, {"client-builtin", false}, {"srvitem-critical", false}, {"srvmsg-upgrade", false}, {"client-drop", false}}
 	for _, p := range chain {
 		if p == "newctx" || p == "thrice" {
 			return append(kv, kindVariant{"srvmsg", true}, kindVariant{"srvitem", true})
